@@ -137,7 +137,7 @@ func (cfg *config) proxyForURL(reqURL *url.URL) (*url.URL, error) {
 	if proxy == nil {
 		return nil, nil
 	}
-	if !cfg.useProxy(canonicalAddr(reqURL)) {
+	if !cfg.useProxyHostPort(canonicalHostPort(reqURL)) {
 		return nil, nil
 	}
 
@@ -166,15 +166,22 @@ func parseProxy(proxy string) (*url.URL, error) {
 
 // useProxy reports whether requests to addr should use a proxy,
 // according to the NO_PROXY or no_proxy environment variable.
-// addr is always a canonicalAddr with a host and port.
+// addr is a "host:port" pair. An addr that cannot be split is not
+// exempted from proxying.
 func (cfg *config) useProxy(addr string) bool {
 	if len(addr) == 0 {
 		return true
 	}
 	host, port, err := net.SplitHostPort(addr)
 	if err != nil {
-		return false
+		return true
 	}
+	return cfg.useProxyHostPort(host, port)
+}
+
+// useProxyHostPort reports whether requests to host and port should
+// use a proxy, according to the NO_PROXY or no_proxy environment variable.
+func (cfg *config) useProxyHostPort(host, port string) bool {
 	if host == "localhost" {
 		return false
 	}
@@ -187,7 +194,7 @@ func (cfg *config) useProxy(addr string) bool {
 		}
 	}
 
-	addr = strings.ToLower(strings.TrimSpace(host))
+	addr := strings.ToLower(strings.TrimSpace(host))
 
 	if ip != nil {
 		for _, m := range cfg.ipMatchers {
@@ -281,15 +288,23 @@ var portMap = map[string]string{
 
 // canonicalAddr returns url.Host but always with a ":port" suffix
 func canonicalAddr(url *url.URL) string {
-	addr := url.Hostname()
-	if v, err := idnaASCII(addr); err == nil {
-		addr = v
+	return net.JoinHostPort(canonicalHostPort(url))
+}
+
+// canonicalHostPort returns the host of url in its ASCII form and its
+// port, defaulting to the port of the scheme. The pair is not joined
+// and split again: a host with a stray bracket (which url.Parse accepts)
+// would not survive net.SplitHostPort.
+func canonicalHostPort(url *url.URL) (host, port string) {
+	host = url.Hostname()
+	if v, err := idnaASCII(host); err == nil {
+		host = v
 	}
-	port := url.Port()
+	port = url.Port()
 	if port == "" {
 		port = portMap[url.Scheme]
 	}
-	return net.JoinHostPort(addr, port)
+	return host, port
 }
 
 // Given a string of the form "host", "host:port", or "[ipv6::address]:port",
